@@ -538,6 +538,64 @@ pub fn gen_miri(seed: u64, index: u64) -> Generated {
     }
 }
 
+/// Engine B workload for C18: one probe-strategy interpolator, 2-3 threads issuing batches, about
+/// half of which carry a planned strategy error early in the batch (so that the failing caller
+/// spends its time in whatever the library does after an error while the others are mid-batch).
+pub fn gen_miri_c18(seed: u64, index: u64) -> Generated {
+    // stratified: even workloads use a 1-D probe strategy, odd ones a 2-D one
+    let want = if index % 2 == 0 { Kind::Probe1 } else { Kind::Probe2 };
+    let mut r = Rng::new(seed);
+    let r = &mut r;
+    let faults = Faults { oob: false, badbuf: false, strat_err: true, strat_panic: false, crash: false, stall: false, cow: false, badidx: false, mismatch: false, sibling: false };
+    let cfg = loop {
+        let c = gen_slot(r, Mode::C18);
+        let lanes: usize = c.trailing().iter().product();
+        if c.kind == want && c.shape[0] <= 5 && lanes <= 4 && lanes >= 1 && !matches!(c.dimty, DimTy::Ix4 | DimTy::Ix5) {
+            break c;
+        }
+    };
+    let two = cfg.kind.is_2d();
+    let ax = cfg.axis_x();
+    let ay = if two { cfg.axis_y() } else { vec![0.0, 1.0] };
+    let n_threads = r.range(2, 3);
+    let mut uniq = 0u32;
+    let threads: Vec<ThreadSpec> = (0..n_threads)
+        .map(|t| {
+            let n_ops = r.range(5, 9);
+            let ops = (0..n_ops)
+                .map(|i| {
+                    let n = r.range(3, 8);
+                    // pairwise distinct elements inside the batch
+                    let xs: Vec<Fb> = (0..n)
+                        .map(|_| {
+                            uniq += 1;
+                            Fb(ax[0] + (ax[ax.len() - 1] - ax[0]) * r.unit() + uniq as f64 * 1e-9)
+                        })
+                        .collect();
+                    let ys: Vec<Fb> = if two { (0..n).map(|_| Fb(ay[0] + (ay[ay.len() - 1] - ay[0]) * r.unit())).collect() } else { vec![] };
+                    let (ty, shape) = match r.weighted(&[4, 2, 2]) {
+                        0 => (QTy::Q1, vec![n]),
+                        1 => (QTy::QDyn, vec![n]),
+                        _ => (QTy::Q2, vec![1, n]),
+                    };
+                    let q = QSpec { ty, shape, xs, ys, ys_shape: None, lay: Lay::C, ys_lay: Lay::C };
+                    let plan = if r.chance(1, 2) {
+                        let k = r.below(2.min(n));
+                        let mut p = vec![Act::Ok; k];
+                        p.push(Act::Err(format!("tok-t{t}-o{i}-k{k}")));
+                        p
+                    } else {
+                        vec![]
+                    };
+                    Op { slot: 0, call: Call::Array { q }, plan, yield_mask: 0, check_acc: r.chance(1, 4) }
+                })
+                .collect();
+            ThreadSpec { ops, crash_on_fault: false }
+        })
+        .collect();
+    Generated { spec: RunSpec { build_on_thread: vec![], slots: vec![cfg], threads, sched: Sched::RoundRobin { quantum: 1 }, stall: None, ballast: 0 }, faults }
+}
+
 fn gen_hammer(r: &mut Rng, want: Option<Kind>) -> Generated {
     let faults = Faults { oob: false, badbuf: false, strat_err: false, strat_panic: false, crash: false, stall: false, cow: false, badidx: false, mismatch: false, sibling: true };
     let cfg = loop {
